@@ -327,3 +327,19 @@ func isErrorCtor(v ssa.Value) bool {
 	}
 	return false
 }
+
+// isSplitCall: strings.Split(x, sep), or strings.SplitN(x, sep, n) with a
+// constant n that cannot truncate a text of `fields` fields (n < 0 or
+// n > fields): for such texts, and for the question "does the text have
+// exactly `fields` fields", both calls agree.
+func isSplitCall(call *ssa.Call, fields int64) bool {
+	if calleeIs(call, "strings", "Split") {
+		return true
+	}
+	if calleeIs(call, "strings", "SplitN") && len(call.Call.Args) == 3 {
+		if n, ok := constInt(call.Call.Args[2]); ok && (n < 0 || n > fields) {
+			return true
+		}
+	}
+	return false
+}
